@@ -127,6 +127,17 @@ Theorem C09_chain_decodes :
     get_plain_content inflate lzw {| s_dict := d; s_content := content |} = Ok plain.
 Proof. exact chain_decodes. Qed.
 
+(* the model's fuel (frame_go) never runs out, so no theorem silently excludes inputs *)
+Theorem C09_no_fuel :
+  forall inflate lzw s, decompressed_content inflate lzw s <> Fuel.
+Proof. exact decompressed_content_no_fuel. Qed.
+
+(* an empty Filter array (no filter at all): the plain content is the content *)
+Theorem C09_plain_empty_filters :
+  forall inflate lzw s,
+    dict_get (s_dict s) P_Filter = Some (OArr []) -> get_plain_content inflate lzw s = Ok (s_content s).
+Proof. exact plain_empty_filters. Qed.
+
 (* non-vacuity: ASCII85 around Flate with Predictor 12 / Columns 2, rows of types Up and Average, parameters as a
    parallel array [null, << >>]; and the single-filter stream with the parameters as one dictionary *)
 Theorem C09_example_chain_array :
@@ -278,6 +289,8 @@ Print Assumptions C09_decode_parms_forms.
 Print Assumptions C09_filter_entry.
 Print Assumptions C09_stage_decodes.
 Print Assumptions C09_chain_decodes.
+Print Assumptions C09_no_fuel.
+Print Assumptions C09_plain_empty_filters.
 Print Assumptions C09_example_chain_array.
 Print Assumptions C09_example_chain_dict.
 Print Assumptions C09_length_after_set_content.
